@@ -110,6 +110,10 @@ package healthcheck
 //@   ensures expired_pass: forall a string :: (a in addrs) && old(a in f.unhealthy) && old(f.clk.now) - old(f.unhealthy[a]) > f.config.FailTimeout ==> (a in result)
 //@   ensures recent_filtered: forall a string :: old(a in f.unhealthy) && f.clk.now - old(f.unhealthy[a]) <= f.config.FailTimeout ==> !(a in result)
 //@   ensures marks_kept: forall a string :: (a in f.unhealthy) ==> old(a in f.unhealthy) && f.unhealthy[a] == old(f.unhealthy[a])
+// A mark is forgotten only once it is older than FailTimeout - whatever set of hosts this call was
+// given (whether a host is filtered does not depend on which lists the filter was run over before).
+//@   ensures only_expired_marks_forgotten: forall a string :: old(a in f.unhealthy) && !(a in f.unhealthy) ==> f.clk.now - old(f.unhealthy[a]) > f.config.FailTimeout
+//@   loop 0 invariant only_expired_marks_forgotten: forall a string :: old(a in f.unhealthy) && !(a in f.unhealthy) ==> f.clk.now - old(f.unhealthy[a]) > f.config.FailTimeout
 //@   loop 0 invariant subset: forall a string :: (a in healthy) ==> (a in addrs)
 //@   loop 0 invariant untouched: forall a string :: (a in addrs) && !(old(a in f.unhealthy) && seen0(a)) ==> (a in healthy)
 //@   loop 0 invariant expired_pass: forall a string :: (a in addrs) && old(a in f.unhealthy) && old(f.clk.now) - old(f.unhealthy[a]) > f.config.FailTimeout ==> (a in healthy)
